@@ -1,6 +1,6 @@
 (* C02 -- canonicalisation preserves content.  ONLY statements closed by `exact`. *)
 From OV Require Import Base.Strs Syn.Escape Syn.Quote Syn.Ast Syn.Emitter Syn.Wf Lex.Pins_Lexer Gen.LexerGen
-     Lex.Lexer Syn.Parser Rt.TokRound Rt.TokRoundEx.
+     Lex.Lexer Syn.Parser Rt.TokRound Rt.TokRoundEx Rt.LexLinkBase Rt.LexLink Rt.LexLinkEx.
 
 (* the line structure of a text made of newline-free lines is recovered exactly by splitting *)
 Theorem C02_lines_recoverable : forall ls : list str, ls <> [] ->
@@ -50,3 +50,29 @@ Theorem C02_core_example_text_roundtrip :
   | _ => False
   end.
 Proof. exact ex_text_roundtrip. Qed.
+
+(* TEXT LEVEL, EVERY DEPTH: for every core document whose keys are plain words and whose scalars are what the emitter
+   writes as one token (lex_safe_doc, decidable; each excluded class has a refutation witness in Rt/LexLinkEx.v), the
+   full reader model (frontmatter strip, lexer, parser) applied to the EMITTED TEXT returns exactly the document:
+   envelope name, keys, nesting, order, values and their kinds -- with no lexer repair and only advisory warnings.
+   This is parse(emit d) = d as a theorem, for all cls oracles, all space oracles, strict or lenient. *)
+Theorem C02_text_roundtrip_core :
+  forall cls numcanon holo_ok strict sp d,
+    core_doc d = true -> lex_safe_doc d = true -> nums_ok_l numcanon (dsections d) ->
+    exists warns, parse_model cls numcanon holo_ok strict (lines_of (emit sp d)) = PRDoc d [] warns /\ Forall advisory warns.
+Proof. exact text_roundtrip_core. Qed.
+
+Theorem C02_lex_emit_core :
+  forall cls sp d, core_doc d = true -> lex_safe_doc d = true ->
+    exists ts tnl teof,
+      tokenize cls false (lines_of (emit sp d)) = LexOk (ts ++ [tnl; teof]) [] /\
+      Forall2 tmatch ts (doc_sh d) /\ tk tnl = NEWLINE /\ tk teof = EOF.
+Proof. exact lex_emit_core. Qed.
+
+(* the side condition is needed (statement without it is false of the faithful model) and satisfiable on a depth-4
+   document with every scalar kind, escapes, a non-ASCII character, exponent numbers and an always-quote key *)
+Definition C02_lex_emit_core_full : Prop := lex_emit_core_full.
+Theorem C02_lex_emit_core_full_refuted : ~ lex_emit_core_full.
+Proof. exact lex_emit_core_full_refuted. Qed.
+Theorem C02_text_roundtrip_nonvacuous : core_doc ex_doc2 = true /\ lex_safe_doc ex_doc2 = true.
+Proof. exact (conj ex_doc2_core ex_doc2_lex_safe). Qed.
